@@ -142,7 +142,7 @@ class URI(object):
 
     def __setstate__(self, state):
         self.protocol, self.object, self.sockname, self.host, self.port = state
-        if self.protocol == "PYROMETA" and not isinstance(self.object, set):
+        if self.protocol == "PYROMETA" and type(self.object) in (list, tuple, frozenset):
             self.object = set(self.object)    # some serializers turn the tag set into a list
 
 
